@@ -18,6 +18,7 @@ DECLINED = ["'wakes exactly one current waiter' as a statement about histories",
 ASSUMPTIONS = ["C02.R3 (BLOCKED published after the context is saved) and C04 (mutex) hold",
                "ABTD_futex_* behave like Linux futex wait/wake"]
 RULES_DOC = dict(common.SHARED_DOC)
+RULES_DOC["X7"] = common.X7_DOC
 RULES_DOC["X4"] = common.X4_DOC
 RULES_DOC["R7"] = "= C19.R2/R3: a timed-out waiter is unlinked completely (both neighbours, head and tail) before the wait returns: a later signal is not consumed by a stale node"
 RULES_DOC["X5"] = common.X5_DOC
@@ -381,6 +382,7 @@ def rule_R6(P, rep):
 
 
 def run(P, rep, tier):
+    common.rule_X7(P, rep, records=('ABTI_cond',))
     common.rule_X6(P, rep)
     common.rule_widths(P, rep, [('ABTD_futex_multiple', 'val')])
     common.rule_X4(P, rep)
